@@ -100,3 +100,18 @@ pub fn wait_until(max_ms: u64, mut cond: impl FnMut() -> bool) -> bool {
         std::thread::sleep(std::time::Duration::from_micros(50));
     }
 }
+
+static LEAK_SEEN: AtomicBool = AtomicBool::new(false);
+
+/// Thread engine: actors killed by an exit finish asynchronously, so the global tables are polled until
+/// empty. A true leak is permanent (waiting cannot hide it); once one has been reported in this process
+/// the wait is shortened so that a broken tree does not make the run crawl.
+pub fn settle_leaks() -> Vec<String> {
+    let max = if LEAK_SEEN.load(Ordering::SeqCst) { 400 } else { 10_000 };
+    wait_until(max, || crate::vt::global_leaks().is_empty());
+    let l = crate::vt::global_leaks();
+    if !l.is_empty() {
+        LEAK_SEEN.store(true, Ordering::SeqCst);
+    }
+    l
+}
